@@ -275,7 +275,9 @@ func matchShadow(parts []zzPart, i int, p string, pos int, target int, c byte, h
 // zzSiblingStatic: some template T (with this method) produces the path - under the most liberal reading -
 // and at the point where T and another template T2, read as strings from the start, first differ, T has a
 // parameter while T2 continues with static text whose first byte is the byte of the path at which T's
-// argument starts: the router enters the static sibling branch first. Region of the recorded finding
+// argument starts, and that static text leads to an inner node of the route tree (T2 has a parameter further
+// on, or another template extends T2): the router enters the static sibling branch first and a failure further
+// inside leaves it through a `break` that skips the restore. Region of the recorded finding
 // C05/static-sibling-shadows-parameter (any depth of the route tree; the defect both loses strict instances
 // and, through the missing restore of the remaining text, extracts arguments from the wrong text).
 func zzSiblingStatic(method, p string) bool {
@@ -295,7 +297,34 @@ func zzSiblingStatic(method, p string) bool {
 				d++
 			}
 			if d < len(tt) && d < len(ot) && tt[d] >= 0x100 && ot[d] < 0x100 {
-				res = zz.Or(res, matchShadow(t.Parts, 0, p, 0, tt[d]-0x100, byte(ot[d]), false))
+				// the static sibling must lead to an inner node: a static LEAF sibling (T2 ends in that static
+				// text and nothing extends it) is backed out of correctly and is not part of the finding
+				inner := false
+				for k := d; k < len(ot); k++ {
+					if ot[k] >= 0x100 {
+						inner = true
+					}
+				}
+				for l, o2 := range zzTemplates {
+					if l == j {
+						continue
+					}
+					t2 := zzTokens(o2)
+					if len(t2) > len(ot) {
+						same := true
+						for k := range ot {
+							if !(t2[k] == ot[k] || (t2[k] >= 0x100 && ot[k] >= 0x100)) {
+								same = false
+							}
+						}
+						if same {
+							inner = true
+						}
+					}
+				}
+				if inner {
+					res = zz.Or(res, matchShadow(t.Parts, 0, p, 0, tt[d]-0x100, byte(ot[d]), false))
+				}
 			}
 		}
 	}
